@@ -250,6 +250,7 @@ func FeatureID(s *core.Source) interface{} {
 type LayerOpts struct {
 	Collections bool // include geometry collections (marshal flattens them: known finding of C03)
 	NilGeoms    bool
+	Repetitive  bool // occasionally repeat a feature a thousand times (highly compressible tiles)
 }
 
 // Layers draws a layer list.
@@ -274,7 +275,7 @@ func Layers(s *core.Source, o LayerOpts) mvt.Layers {
 			f.Properties = Props(s)
 			l.Features = append(l.Features, f)
 		})
-		if len(l.Features) > 0 && s.Chance(1, 120, "repetitive") {
+		if o.Repetitive && len(l.Features) > 0 && s.Chance(1, 120, "repetitive") {
 			// real tiles are repetitive: the same feature many times over (compresses far better than 40:1)
 			n := []int{100, 1200}[s.Intn(2, "reps")]
 			f := l.Features[len(l.Features)-1]
